@@ -1013,3 +1013,368 @@ package p9
 //@   ensures[C12] @version-is-min-of-requested-and-7 old(t.MSize) != 0 && ghost("$pv.ok", bool) && ghost("$pv.base", baseVersion) == version9P2000L ==> cs.version == min(ghost("$pv.num", uint32), 7) && unbox(result, *rversion).Version == ite(cs.version == 0, "9P2000.L", googleVersion(cs.version))
 //@   at parseVersion requires[C12] @parses-the-requested-string arg0 == old(t.Version)
 //@   ensures[C12,C04] @no-backend-call nocalls()
+
+// =============================================================================
+// C01 / C18 / C02: wire codecs
+// =============================================================================
+//
+// Ghost byte sequences: wr(b) = bytes appended to buffer b so far, rd(b) =
+// bytes b still has to offer. The ten core primitives below are proved at the
+// byte-array level (section "buffer primitives, array level") and used by
+// everything else through the sequence-level restatement (bridge_ensures).
+
+//@ group wrFrame
+//@   modifies $wr, b.data, arrays(byte)
+//@ group rdFrame
+//@   modifies $rd, b.data, b.overflow
+
+//@ func (*buffer).Write8
+//@   abstract
+//@   use wrFrame
+//@   bridge_ensures[C01] wr(b) == snoc8(old(wr(b)), v) && sameWrExcept(b)
+//@ func (*buffer).Write16
+//@   abstract
+//@   use wrFrame
+//@   bridge_ensures[C01] wr(b) == snoc16(old(wr(b)), v) && sameWrExcept(b)
+//@ func (*buffer).Write32
+//@   abstract
+//@   use wrFrame
+//@   bridge_ensures[C01] wr(b) == snoc32(old(wr(b)), v) && sameWrExcept(b)
+//@ func (*buffer).Write64
+//@   abstract
+//@   use wrFrame
+//@   bridge_ensures[C01] wr(b) == snoc64(old(wr(b)), v) && sameWrExcept(b)
+//@ func (*buffer).WriteString
+//@   abstract
+//@   use wrFrame
+//@   requires[C01] @length-fits-16-bits len(s) <= 65535
+//@   bridge_ensures[C01] wr(b) == snocstr(old(wr(b)), s) && sameWrExcept(b)
+
+//@ func (*buffer).Read8
+//@   abstract
+//@   use rdFrame
+//@   bridge_ensures[C01,C18] !old(b.overflow) && has8(old(rd(b))) ==> result == take8(old(rd(b))) && rd(b) == drop8(old(rd(b))) && !b.overflow
+//@   bridge_ensures[C02,C18] old(b.overflow) ==> b.overflow
+//@   bridge_ensures[C01] sameRdExcept(b)
+//@ func (*buffer).Read16
+//@   abstract
+//@   use rdFrame
+//@   bridge_ensures[C01,C18] !old(b.overflow) && has16(old(rd(b))) ==> result == take16(old(rd(b))) && rd(b) == drop16(old(rd(b))) && !b.overflow
+//@   bridge_ensures[C02,C18] old(b.overflow) ==> b.overflow
+//@   bridge_ensures[C01] sameRdExcept(b)
+//@ func (*buffer).Read32
+//@   abstract
+//@   use rdFrame
+//@   bridge_ensures[C01,C18] !old(b.overflow) && has32(old(rd(b))) ==> result == take32(old(rd(b))) && rd(b) == drop32(old(rd(b))) && !b.overflow
+//@   bridge_ensures[C02,C18] old(b.overflow) ==> b.overflow
+//@   bridge_ensures[C01] sameRdExcept(b)
+//@ func (*buffer).Read64
+//@   abstract
+//@   use rdFrame
+//@   bridge_ensures[C01,C18] !old(b.overflow) && has64(old(rd(b))) ==> result == take64(old(rd(b))) && rd(b) == drop64(old(rd(b))) && !b.overflow
+//@   bridge_ensures[C02,C18] old(b.overflow) ==> b.overflow
+//@   bridge_ensures[C01] sameRdExcept(b)
+//@ func (*buffer).ReadString
+//@   abstract
+//@   use rdFrame
+//@   bridge_ensures[C01,C18] !old(b.overflow) && hasstr(old(rd(b))) ==> result == takestr(old(rd(b))) && rd(b) == dropstr(old(rd(b))) && !b.overflow
+//@   bridge_ensures[C02,C18] old(b.overflow) ==> b.overflow
+//@   bridge_ensures[C01] sameRdExcept(b)
+
+// typed wrappers: proved against the primitives
+//@ group w8
+//@   use wrFrame
+//@   ensures[C01] wr(b) == snoc8(old(wr(b)), uint8(arg1)) && sameWrExcept(b)
+//@   nopanic
+//@ group w16
+//@   use wrFrame
+//@   ensures[C01] wr(b) == snoc16(old(wr(b)), uint16(arg1)) && sameWrExcept(b)
+//@   nopanic
+//@ group w32
+//@   use wrFrame
+//@   ensures[C01] wr(b) == snoc32(old(wr(b)), uint32(arg1)) && sameWrExcept(b)
+//@   nopanic
+//@ func (*buffer).WriteQIDType
+//@   use w8
+//@ func (*buffer).WriteMsgType
+//@   use w8
+//@ func (*buffer).WriteTag
+//@   use w16
+//@ func (*buffer).WriteFID
+//@   use w32
+//@ func (*buffer).WriteUID
+//@   use w32
+//@ func (*buffer).WriteGID
+//@   use w32
+//@ func (*buffer).WriteFileMode
+//@   use w32
+//@ func (*buffer).WriteOpenFlags
+//@   use w32
+//@ func (*buffer).WritePermissions
+//@   use wrFrame
+//@   ensures[C01] @low-12-bits-only wr(b) == snoc32(old(wr(b)), uint32(perm & permissionsMask)) && sameWrExcept(b)
+//@   nopanic
+
+//@ group rsticky
+//@   use rdFrame
+//@   ensures[C02,C18] old(b.overflow) ==> b.overflow
+//@   ensures[C01] sameRdExcept(b)
+//@   nopanic
+//@ func (*buffer).ReadQIDType
+//@   use rsticky
+//@   ensures[C01,C18] !old(b.overflow) && has8(old(rd(b))) ==> result == QIDType(take8(old(rd(b)))) && rd(b) == drop8(old(rd(b))) && !b.overflow
+//@ func (*buffer).ReadMsgType
+//@   use rsticky
+//@   ensures[C01,C18] !old(b.overflow) && has8(old(rd(b))) ==> result == msgType(take8(old(rd(b)))) && rd(b) == drop8(old(rd(b))) && !b.overflow
+//@ func (*buffer).ReadTag
+//@   use rsticky
+//@   ensures[C01,C18] !old(b.overflow) && has16(old(rd(b))) ==> result == tag(take16(old(rd(b)))) && rd(b) == drop16(old(rd(b))) && !b.overflow
+//@ func (*buffer).ReadFID
+//@   use rsticky
+//@   ensures[C01,C18] !old(b.overflow) && has32(old(rd(b))) ==> result == fid(take32(old(rd(b)))) && rd(b) == drop32(old(rd(b))) && !b.overflow
+//@ func (*buffer).ReadUID
+//@   use rsticky
+//@   ensures[C01,C18] !old(b.overflow) && has32(old(rd(b))) ==> result == UID(take32(old(rd(b)))) && rd(b) == drop32(old(rd(b))) && !b.overflow
+//@ func (*buffer).ReadGID
+//@   use rsticky
+//@   ensures[C01,C18] !old(b.overflow) && has32(old(rd(b))) ==> result == GID(take32(old(rd(b)))) && rd(b) == drop32(old(rd(b))) && !b.overflow
+//@ func (*buffer).ReadFileMode
+//@   use rsticky
+//@   ensures[C01,C18] !old(b.overflow) && has32(old(rd(b))) ==> result == FileMode(take32(old(rd(b)))) && rd(b) == drop32(old(rd(b))) && !b.overflow
+//@ func (*buffer).ReadOpenFlags
+//@   use rsticky
+//@   ensures[C01,C18] !old(b.overflow) && has32(old(rd(b))) ==> result == OpenFlags(take32(old(rd(b)))) && rd(b) == drop32(old(rd(b))) && !b.overflow
+//@ func (*buffer).ReadPermissions
+//@   use rsticky
+//@   ensures[C01,C18] @low-12-bits-only !old(b.overflow) && has32(old(rd(b))) ==> result == FileMode(take32(old(rd(b)))) & permissionsMask && rd(b) == drop32(old(rd(b))) && !b.overflow
+
+// ---- sub-records (9P2000.L: qid[13] = type[1] version[4] path[8], ...) -------------
+//@ record QID = Type:u8 Version:u32 Path:u64
+//@ record FSStat = Type:u32 BlockSize:u32 Blocks:u64 BlocksFree:u64 BlocksAvailable:u64 Files:u64 FilesFree:u64 FSID:u64 NameLength:u32
+//@ record Attr = Mode:u32 UID:u32 GID:u32 NLink:u64 RDev:u64 Size:u64 BlockSize:u64 Blocks:u64 ATimeSeconds:u64 ATimeNanoSeconds:u64 MTimeSeconds:u64 MTimeNanoSeconds:u64 CTimeSeconds:u64 CTimeNanoSeconds:u64 BTimeSeconds:u64 BTimeNanoSeconds:u64 Gen:u64 DataVersion:u64
+//@ record SetAttr = Permissions:perm32 UID:u32 GID:u32 Size:u64 ATimeSeconds:u64 ATimeNanoSeconds:u64 MTimeSeconds:u64 MTimeNanoSeconds:u64
+//@ record Dirent = QID:sub:QID Offset:u64 Type:u8 Name:str
+
+// P9_GETATTR_* / P9_SETATTR_* bit assignments (Linux include/net/9p/9p.h)
+//@ define attrMaskWord(a AttrMask) uint64 = ite(a.Mode, uint64(0x1), 0) | ite(a.NLink, uint64(0x2), 0) | ite(a.UID, uint64(0x4), 0) | ite(a.GID, uint64(0x8), 0) | ite(a.RDev, uint64(0x10), 0) | ite(a.ATime, uint64(0x20), 0) | ite(a.MTime, uint64(0x40), 0) | ite(a.CTime, uint64(0x80), 0) | ite(a.INo, uint64(0x100), 0) | ite(a.Size, uint64(0x200), 0) | ite(a.Blocks, uint64(0x400), 0) | ite(a.BTime, uint64(0x800), 0) | ite(a.Gen, uint64(0x1000), 0) | ite(a.DataVersion, uint64(0x2000), 0)
+//@ define setAttrMaskWord(a SetAttrMask) uint32 = ite(a.Permissions, uint32(0x1), 0) | ite(a.UID, uint32(0x2), 0) | ite(a.GID, uint32(0x4), 0) | ite(a.Size, uint32(0x8), 0) | ite(a.ATime, uint32(0x10), 0) | ite(a.MTime, uint32(0x20), 0) | ite(a.CTime, uint32(0x40), 0) | ite(a.ATimeNotSystemTime, uint32(0x80), 0) | ite(a.MTimeNotSystemTime, uint32(0x100), 0)
+//@ define attrMaskFromWord(w uint64) AttrMask = AttrMask{Mode: w&0x1 != 0, NLink: w&0x2 != 0, UID: w&0x4 != 0, GID: w&0x8 != 0, RDev: w&0x10 != 0, ATime: w&0x20 != 0, MTime: w&0x40 != 0, CTime: w&0x80 != 0, INo: w&0x100 != 0, Size: w&0x200 != 0, Blocks: w&0x400 != 0, BTime: w&0x800 != 0, Gen: w&0x1000 != 0, DataVersion: w&0x2000 != 0}
+//@ define setAttrMaskFromWord(w uint32) SetAttrMask = SetAttrMask{Permissions: w&0x1 != 0, UID: w&0x2 != 0, GID: w&0x4 != 0, Size: w&0x8 != 0, ATime: w&0x10 != 0, MTime: w&0x20 != 0, CTime: w&0x40 != 0, ATimeNotSystemTime: w&0x80 != 0, MTimeNotSystemTime: w&0x100 != 0}
+//@ record AttrMask = -:mask64:attrMaskWord:attrMaskFromWord
+//@ record SetAttrMask = -:mask32:setAttrMaskWord:setAttrMaskFromWord
+//@ inline (SetAttrMask).bitmask
+
+// ---- messages (layouts from the 9P2000.L protocol description; numbers below) --------
+//@ layout tversion = MSize:u32 Version:str
+//@ layout rversion = MSize:u32 Version:str
+//@ layout tflush = OldTag:u16
+//@ layout rflush =
+//@ layout tclunk = fid:fid32
+//@ layout rclunk =
+//@ layout tremove = fid:fid32
+//@ layout rremove =
+//@ layout rlerror = Error:u32
+//@ layout tauth = Authenticationfid:fid32 UserName:str AttachName:str UID:u32
+//@ layout tattach = fid:fid32 Auth:sub:tauth
+//@ layout tlopen = fid:fid32 Flags:u32
+//@ layout rlopen = QID:sub:QID IoUnit:u32
+//@ layout tlcreate = fid:fid32 Name:str OpenFlags:u32 Permissions:perm32 GID:u32
+//@ layout tsymlink = Directory:fid32 Name:str Target:str GID:u32
+//@ layout rsymlink = QID:sub:QID
+//@ layout tlink = Directory:fid32 Target:fid32 Name:str
+//@ layout rlink =
+//@ layout trenameat = OldDirectory:fid32 OldName:str NewDirectory:fid32 NewName:str
+//@ layout rrenameat =
+//@ layout tunlinkat = Directory:fid32 Name:str Flags:u32
+//@ layout runlinkat =
+//@ layout trename = fid:fid32 Directory:fid32 Name:str
+//@ layout rrename =
+//@ layout treadlink = fid:fid32
+//@ layout rreadlink = Target:str
+//@ layout tread = fid:fid32 Offset:u64 Count:u32
+//@ layout rwrite = Count:u32
+//@ layout tmknod = Directory:fid32 Name:str Mode:u32 Major:u32 Minor:u32 GID:u32
+//@ layout rmknod = QID:sub:QID
+//@ layout tmkdir = Directory:fid32 Name:str Permissions:perm32 GID:u32
+//@ layout rmkdir = QID:sub:QID
+//@ layout tgetattr = fid:fid32 AttrMask:sub:AttrMask
+//@ layout rgetattr = Valid:sub:AttrMask QID:sub:QID Attr:sub:Attr
+//@ layout tsetattr = fid:fid32 Valid:sub:SetAttrMask SetAttr:sub:SetAttr
+//@ layout rsetattr =
+//@ layout txattrwalk = fid:fid32 newFID:fid32 Name:str
+//@ layout rxattrwalk = Size:u64
+//@ layout txattrcreate = fid:fid32 Name:str AttrSize:u64 Flags:u32
+//@ layout rxattrcreate =
+//@ layout treaddir = Directory:fid32 Offset:u64 Count:u32
+//@ layout tfsync = fid:fid32
+//@ layout rfsync =
+//@ layout tstatfs = fid:fid32
+//@ layout rstatfs = FSStat:sub:FSStat
+//@ layout tlock = fid:fid32 Type:u8 Flags:u32 Start:u64 Length:u64 PID:u32 Client:str
+//@ layout rlock = Status:u8
+//@ layout tucreate = tlcreate:sub:tlcreate UID:u32
+//@ layout tumkdir = tmkdir:sub:tmkdir UID:u32
+//@ layout tumknod = tmknod:sub:tmknod UID:u32
+//@ layout tusymlink = tsymlink:sub:tsymlink UID:u32
+
+// promoted encoders (embedding): same bytes as the embedded record
+//@ layout rauth = QID:sub:QID
+//@ layout rattach = QID:sub:QID
+//@ layout rlcreate = rlopen:sub:rlopen
+//@ layout rucreate = rlcreate:sub:rlcreate
+//@ layout rumkdir = rmkdir:sub:rmkdir
+//@ layout rumknod = rmknod:sub:rmknod
+//@ layout rusymlink = rsymlink:sub:rsymlink
+
+// protocol numbers (9P2000.L: include/net/9p/9p.h; .Google extensions 126-135)
+//@ msgtype rlerror = 7
+//@ msgtype tstatfs = 8
+//@ msgtype rstatfs = 9
+//@ msgtype tlopen = 12
+//@ msgtype rlopen = 13
+//@ msgtype tlcreate = 14
+//@ msgtype rlcreate = 15
+//@ msgtype tsymlink = 16
+//@ msgtype rsymlink = 17
+//@ msgtype tmknod = 18
+//@ msgtype rmknod = 19
+//@ msgtype trename = 20
+//@ msgtype rrename = 21
+//@ msgtype treadlink = 22
+//@ msgtype rreadlink = 23
+//@ msgtype tgetattr = 24
+//@ msgtype rgetattr = 25
+//@ msgtype tsetattr = 26
+//@ msgtype rsetattr = 27
+//@ msgtype txattrwalk = 30
+//@ msgtype rxattrwalk = 31
+//@ msgtype txattrcreate = 32
+//@ msgtype rxattrcreate = 33
+//@ msgtype treaddir = 40
+//@ msgtype rreaddir = 41
+//@ msgtype tfsync = 50
+//@ msgtype rfsync = 51
+//@ msgtype tlock = 52
+//@ msgtype rlock = 53
+//@ msgtype tlink = 70
+//@ msgtype rlink = 71
+//@ msgtype tmkdir = 72
+//@ msgtype rmkdir = 73
+//@ msgtype trenameat = 74
+//@ msgtype rrenameat = 75
+//@ msgtype tunlinkat = 76
+//@ msgtype runlinkat = 77
+//@ msgtype tversion = 100
+//@ msgtype rversion = 101
+//@ msgtype tauth = 102
+//@ msgtype rauth = 103
+//@ msgtype tattach = 104
+//@ msgtype rattach = 105
+//@ msgtype tflush = 108
+//@ msgtype rflush = 109
+//@ msgtype twalk = 110
+//@ msgtype rwalk = 111
+//@ msgtype tread = 116
+//@ msgtype rread = 117
+//@ msgtype twrite = 118
+//@ msgtype rwrite = 119
+//@ msgtype tclunk = 120
+//@ msgtype rclunk = 121
+//@ msgtype tremove = 122
+//@ msgtype rremove = 123
+//@ msgtype twalkgetattr = 126
+//@ msgtype rwalkgetattr = 127
+//@ msgtype tucreate = 128
+//@ msgtype rucreate = 129
+//@ msgtype tumkdir = 130
+//@ msgtype rumkdir = 131
+//@ msgtype tumknod = 132
+//@ msgtype rumknod = 133
+//@ msgtype tusymlink = 134
+//@ msgtype rusymlink = 135
+
+// ---- list-carrying messages: counted lists, 2-byte count ---------------------------
+
+//@ func (*twalk).encode
+//@   requires[C01] @counts-fit-16-bits len(t.Names) <= 65535 && forall(j, 0, len(t.Names), len(t.Names[j]) <= 65535)
+//@   use wrFrame
+//@   ensures[C01] @wire-layout wr(b) == snocstrs(snoc16(snoc32(snoc32(old(wr(b)), uint32(t.fid)), uint32(t.newFID)), uint16(len(t.Names))), t.Names, len(t.Names))
+//@   ensures[C01] @other-buffers-untouched sameWrExcept(b)
+//@   nopanic
+//@   loop 0 invariant[C01] 0 <= rangeindex + 1 && rangeindex + 1 <= len(t.Names)
+//@   loop 0 invariant[C01] wr(b) == snocstrs(snoc16(snoc32(snoc32(old(wr(b)), uint32(t.fid)), uint32(t.newFID)), uint16(len(t.Names))), t.Names, rangeindex + 1)
+//@   loop 0 invariant[C01] sameWrExcept(b)
+//@ func (*twalk).decode
+//@   logical mfid uint32, mnew uint32, mn uint16, mnames strs, R seq
+//@   modifies $rd, b.overflow, b.data, self.fid, self.newFID, self.Names, arrays(string)
+//@   ensures[C01,C18] @decodes-what-was-encoded !old(b.overflow) && old(rd(b)) == cons32(mfid, cons32(mnew, cons16(mn, consstrs(mnames, 0, int(mn), R)))) && forall(j, 0, int(mn), len(mnames[j]) <= 65535) ==> t.fid == fid(mfid) && t.newFID == fid(mnew) && len(t.Names) == int(mn) && forall(j, 0, int(mn), t.Names[j] == mnames[j]) && rd(b) == R && !b.overflow
+//@   ensures[C02,C18] @overrun-is-sticky old(b.overflow) ==> b.overflow
+//@   ensures[C01] @other-buffers-untouched sameRdExcept(b)
+//@   nopanic
+//@   loop 0 invariant[C01,C18] 0 <= i
+//@   loop 0 invariant[C01,C18] !old(b.overflow) && old(rd(b)) == cons32(mfid, cons32(mnew, cons16(mn, consstrs(mnames, 0, int(mn), R)))) && forall(j, 0, int(mn), len(mnames[j]) <= 65535) ==> i <= int(mn) && t.fid == fid(mfid) && t.newFID == fid(mnew) && len(t.Names) == i && forall(j, 0, i, t.Names[j] == mnames[j]) && rd(b) == consstrs(mnames, i, int(mn), R) && !b.overflow
+//@   loop 0 invariant[C02,C18] old(b.overflow) ==> b.overflow
+//@   loop 0 invariant[C01] sameRdExcept(b)
+
+//@ func (*twalkgetattr).encode
+//@   requires[C01] @counts-fit-16-bits len(t.Names) <= 65535 && forall(j, 0, len(t.Names), len(t.Names[j]) <= 65535)
+//@   use wrFrame
+//@   ensures[C01] @wire-layout wr(b) == snocstrs(snoc16(snoc32(snoc32(old(wr(b)), uint32(t.fid)), uint32(t.newFID)), uint16(len(t.Names))), t.Names, len(t.Names))
+//@   ensures[C01] @other-buffers-untouched sameWrExcept(b)
+//@   nopanic
+//@   loop 0 invariant[C01] 0 <= rangeindex + 1 && rangeindex + 1 <= len(t.Names)
+//@   loop 0 invariant[C01] wr(b) == snocstrs(snoc16(snoc32(snoc32(old(wr(b)), uint32(t.fid)), uint32(t.newFID)), uint16(len(t.Names))), t.Names, rangeindex + 1)
+//@   loop 0 invariant[C01] sameWrExcept(b)
+//@ func (*twalkgetattr).decode
+//@   logical mfid uint32, mnew uint32, mn uint16, mnames strs, R seq
+//@   modifies $rd, b.overflow, b.data, self.fid, self.newFID, self.Names, arrays(string)
+//@   ensures[C01,C18] @decodes-what-was-encoded !old(b.overflow) && old(rd(b)) == cons32(mfid, cons32(mnew, cons16(mn, consstrs(mnames, 0, int(mn), R)))) && forall(j, 0, int(mn), len(mnames[j]) <= 65535) ==> t.fid == fid(mfid) && t.newFID == fid(mnew) && len(t.Names) == int(mn) && forall(j, 0, int(mn), t.Names[j] == mnames[j]) && rd(b) == R && !b.overflow
+//@   ensures[C02,C18] @overrun-is-sticky old(b.overflow) ==> b.overflow
+//@   ensures[C01] @other-buffers-untouched sameRdExcept(b)
+//@   nopanic
+//@   loop 0 invariant[C01,C18] 0 <= i
+//@   loop 0 invariant[C01,C18] !old(b.overflow) && old(rd(b)) == cons32(mfid, cons32(mnew, cons16(mn, consstrs(mnames, 0, int(mn), R)))) && forall(j, 0, int(mn), len(mnames[j]) <= 65535) ==> i <= int(mn) && t.fid == fid(mfid) && t.newFID == fid(mnew) && len(t.Names) == i && forall(j, 0, i, t.Names[j] == mnames[j]) && rd(b) == consstrs(mnames, i, int(mn), R) && !b.overflow
+//@   loop 0 invariant[C02,C18] old(b.overflow) ==> b.overflow
+//@   loop 0 invariant[C01] sameRdExcept(b)
+
+//@ func (*rwalk).encode
+//@   requires[C01] @count-fits-16-bits len(r.QIDs) <= 65535
+//@   use wrFrame
+//@   ensures[C01] @wire-layout wr(b) == snocqids(snoc16(old(wr(b)), uint16(len(r.QIDs))), r.QIDs, len(r.QIDs))
+//@   ensures[C01] @other-buffers-untouched sameWrExcept(b)
+//@   nopanic
+//@   loop 0 invariant[C01] 0 <= rangeindex + 1 && rangeindex + 1 <= len(r.QIDs)
+//@   loop 0 invariant[C01] wr(b) == snocqids(snoc16(old(wr(b)), uint16(len(r.QIDs))), r.QIDs, rangeindex + 1)
+//@   loop 0 invariant[C01] sameWrExcept(b)
+//@ func (*rwalk).decode
+//@   logical mn uint16, mq qidlist, R seq
+//@   modifies $rd, b.overflow, b.data, self.QIDs, arrays(QID)
+//@   ensures[C01,C18] @decodes-what-was-encoded !old(b.overflow) && old(rd(b)) == cons16(mn, consqids(mq, 0, int(mn), R)) ==> len(r.QIDs) == int(mn) && forall(j, 0, int(mn), r.QIDs[j] == mq[j]) && rd(b) == R && !b.overflow
+//@   ensures[C02,C18] @overrun-is-sticky old(b.overflow) ==> b.overflow
+//@   ensures[C01] @other-buffers-untouched sameRdExcept(b)
+//@   nopanic
+//@   loop 0 invariant[C01,C18] 0 <= i
+//@   loop 0 invariant[C01,C18] !old(b.overflow) && old(rd(b)) == cons16(mn, consqids(mq, 0, int(mn), R)) ==> i <= int(mn) && len(r.QIDs) == i && forall(j, 0, i, r.QIDs[j] == mq[j]) && rd(b) == consqids(mq, i, int(mn), R) && !b.overflow
+//@   loop 0 invariant[C02,C18] old(b.overflow) ==> b.overflow
+//@   loop 0 invariant[C01] sameRdExcept(b)
+
+//@ func (*rwalkgetattr).encode
+//@   requires[C01] @count-fits-16-bits len(r.QIDs) <= 65535
+//@   use wrFrame
+//@   ensures[C01] @wire-layout wr(b) == snocqids(snoc16(enc_Attr(enc_AttrMask(old(wr(b)), old(r.Valid)), old(r.Attr)), uint16(len(r.QIDs))), r.QIDs, len(r.QIDs))
+//@   ensures[C01] @other-buffers-untouched sameWrExcept(b)
+//@   nopanic
+//@   loop 0 invariant[C01] 0 <= rangeindex + 1 && rangeindex + 1 <= len(r.QIDs)
+//@   loop 0 invariant[C01] wr(b) == snocqids(snoc16(enc_Attr(enc_AttrMask(old(wr(b)), old(r.Valid)), old(r.Attr)), uint16(len(r.QIDs))), r.QIDs, rangeindex + 1)
+//@   loop 0 invariant[C01] sameWrExcept(b)
+//@ func (*rwalkgetattr).decode
+//@   logical mv AttrMask, ma Attr, mn uint16, mq qidlist, R seq
+//@   modifies $rd, b.overflow, b.data, self.Valid, self.Attr, self.QIDs, arrays(QID)
+//@   ensures[C01,C18] @decodes-what-was-encoded !old(b.overflow) && old(rd(b)) == dec_AttrMask(mv, dec_Attr(ma, cons16(mn, consqids(mq, 0, int(mn), R)))) ==> r.Valid == mv && r.Attr == ma && len(r.QIDs) == int(mn) && forall(j, 0, int(mn), r.QIDs[j] == mq[j]) && rd(b) == R && !b.overflow
+//@   ensures[C02,C18] @overrun-is-sticky old(b.overflow) ==> b.overflow
+//@   ensures[C01] @other-buffers-untouched sameRdExcept(b)
+//@   nopanic
+//@   loop 0 invariant[C01,C18] 0 <= i
+//@   loop 0 invariant[C01,C18] !old(b.overflow) && old(rd(b)) == dec_AttrMask(mv, dec_Attr(ma, cons16(mn, consqids(mq, 0, int(mn), R)))) ==> i <= int(mn) && r.Valid == mv && r.Attr == ma && len(r.QIDs) == i && forall(j, 0, i, r.QIDs[j] == mq[j]) && rd(b) == consqids(mq, i, int(mn), R) && !b.overflow
+//@   loop 0 invariant[C02,C18] old(b.overflow) ==> b.overflow
+//@   loop 0 invariant[C01] sameRdExcept(b)
